@@ -334,8 +334,16 @@ Theorem agree_spec_burst v c :
 Proof.
   intros Hj Hb. unfold agree, spec_ok, agree_burst, spec_burst. rewrite Hj, Hb.
   intros H. apply andb_true_iff in H. destruct H as [Ho H]. rewrite Ho. cbn [andb].
-  apply andb_true_iff in H. destruct H as [H _]. apply Z.eqb_eq in H. rewrite H.
-  apply Z.leb_le. apply Z.ltb_lt in Hb. unfold predict_burst.
-  pose proof (burst_len_bound (inner_of c) v (cfg_of c) (t_full c) 60 (Z.to_nat (t_n c)) (Z.to_nat (t_burst c)) 0 (j_init (retries0 c))) as B.
-  cbn [j_init j_retries] in B. rewrite Z2Nat.id in B by lia. lia.
+  apply andb_true_iff in H. destruct H as [_ H]. apply Z.leb_le in H.
+  apply Z.leb_le. apply Z.ltb_lt in Hb.
+  assert (B : (Z.of_nat (length (predict_burst v c))
+               <= Z.of_nat (Z.to_nat (t_burst c)) + Z.of_nat 0 + Z.max 0 (j_retries (j_init (retries0 c))))%Z)
+    by (unfold predict_burst; apply burst_len_bound).
+  (* no term mentioning [burst] below this line: the kernel must not be asked to convert it *)
+  revert H B. generalize (Z.of_nat (length (predict_burst v c))). intros L H B.
+  change (j_retries (j_init (retries0 c))) with (retries0 c) in B.
+  rewrite Z2Nat.id in B by (apply Z.lt_le_incl; exact Hb).
+  change (Z.of_nat 0) with 0%Z in B. rewrite Z.add_0_r in B.
+  apply Z.le_trans with (m := (L - t_burst c)%Z); [apply Z.sub_le_mono_r; exact H|].
+  apply Z.le_sub_le_add_l. exact B.
 Qed.
